@@ -9,3 +9,15 @@ pub(super) use magnetic_space_group::{
     primitive_maximal_space_subgroup_from_magnetic_space_group, MagneticSpaceGroup,
 };
 pub(super) use space_group::SpaceGroup;
+
+#[cfg(feature = "verif")]
+pub mod verif_exports {
+    pub use super::magnetic_space_group::{
+        family_space_group_from_magnetic_space_group,
+        primitive_maximal_space_subgroup_from_magnetic_space_group, MagneticSpaceGroup,
+    };
+    pub use super::normalizer::integral_normalizer;
+    pub use super::point_group::{iter_trans_mat_basis, iter_unimodular_trans_mat, PointGroup};
+    pub use super::rotation_type::{identify_rotation_type, RotationType};
+    pub use super::space_group::{match_origin_shift, solve_mod1, SpaceGroup};
+}
